@@ -179,6 +179,26 @@ def run(ctx):
             ctx.violation("correspondence", {"op": "randbelow", "library": lib, "n": n, "model": o, "impl_result": res, "word_bits": ks}, site="randbelow", no_input=True)
     ctx.block("rejection-sampling-model-vs-impl", agree, len(ops))
     successive_independence(ctx)
+    # ---- seed=None: every call draws its own seed from numpy.random; across fresh calls the outcomes must still be
+    #      uniform over the admissible set (a seed drawn from a tiny range shows up as missing outcomes)
+    np.random.seed(ctx.seed + 12345)
+    x6 = np.arange(6); trials = ctx.n(2880, 14400)
+    cnt = Counter(tuple(utils.permute_within_groups(x6, np.zeros(6, dtype=int)).tolist()) for _ in range(trials))
+    chi = sum((v - trials / 720) ** 2 / (trials / 720) for v in cnt.values()) + (720 - len(cnt)) * trials / 720
+    ctx.case(("unseeded", "pwg6"), True); ctx.count("unseeded-calls", trials)
+    if chi > 720 + 12 * 38:      # mean 719, sd ~38
+        ctx.violation("oracle", {"call": "permute_within_groups(seed=None)", "issue": "fresh unseeded calls do not spread uniformly over the 720 orders",
+                                 "distinct_orders": len(cnt), "chi2_719dof": chi, "trials": trials, "numpy_seed": ctx.seed + 12345}, site="get_prng")
+    signs = Counter()
+    for _ in range(ctx.n(2560, 12800)):
+        seen = []
+        core.one_sample(np.arange(1.0, 9.0), reps=1, stat=lambda u: (seen.append(tuple(np.sign(u).astype(int).tolist())), 0.0)[1])
+        signs[seen[-1]] += 1
+    tr = sum(signs.values()); chi = sum((v - tr / 256) ** 2 / (tr / 256) for v in signs.values()) + (256 - len(signs)) * tr / 256
+    ctx.case(("unseeded", "signs8"), True)
+    if chi > 256 + 12 * 23:
+        ctx.violation("oracle", {"call": "one_sample(seed=None)", "issue": "fresh unseeded calls do not spread uniformly over the 256 sign vectors",
+                                 "distinct": len(signs), "chi2_255dof": chi, "trials": tr}, site="get_prng")
     # ---- chi-square over real seeds (support only; generous threshold: false alarm probability < 1e-9)
     for gen in ("sha", "rs"):
         cnt = Counter()
